@@ -130,7 +130,8 @@ def probe_ast(cat, ast, sql, deep=True, counterfactual=True):
     else:
         steps = R.all_steps(plan)
         fetched = []
-        aliases = R.all_aliases(ast) | {c.lower() for c in ctes}
+        aliases = R.all_aliases(ast) | {c.lower() for c in ctes} \
+            | {str(i.parts[-1]).lower() for i, _ in R.table_refs(ast) if i.alias is None and len(i.parts) > 1}
         sent = []          # (integration, tree sent there)
         for st in steps:
             if type(st).__name__ == 'FetchDataframeStep' and st.query is not None:
